@@ -14,6 +14,7 @@ Open Scope list_scope.
 
 Inductive err :=
 | EDuplicateColumn      (* sqlite3.OperationalError: duplicate column name *)
+| EReservedName         (* sqlite3.OperationalError: object name reserved for internal use *)
 | ENoSuchTable | ENoSuchColumn
 | EOverflow             (* OverflowError: Python int too large to convert to SQLite INTEGER *)
 | EZeroDivision         (* count % 0 *)
@@ -226,12 +227,16 @@ Definition update_table (name : string) (f : table -> table) (ts : tables) : tab
 Fixpoint ident_nodup (l : list string) : bool :=
   match l with [] => true | x :: t => negb (mem_ident x t) && ident_nodup t end.
 
+(* SQLite keeps object names that begin with "sqlite_" (any case) for itself *)
+Definition reserved_name (n : string) : bool := String.prefix "sqlite_" (fold_case n).
+
 (* CREATE TABLE IF NOT EXISTS "<name>" (<all fields>) *)
 Definition create_table_if_absent (d : desc) (ts : tables) : res tables :=
   match find_table (d_name d) ts with
   | Some _ => Ok ts
   | None =>
-      if ident_nodup (field_names d)
+      if reserved_name (d_name d) then Err EReservedName
+      else if ident_nodup (field_names d)
       then Ok (ts ++ [{| t_name := d_name d; t_cols := cols_of d; t_rows := [] |}])
       else Err EDuplicateColumn
   end.
@@ -392,10 +397,16 @@ Definition close (w : wstate) : res wstate :=
   (if w_open w then flush w >>= fun w1 => on_con w1 (fun c => Ok (con_close c)) else Ok w) >>= fun w2 =>
   Ok (set_closed w2).
 
-(* __init__: connect(isolation_level=None); count = 0; tx_cycle() *)
-Definition init (batch : N) : res wstate :=
+(* __init__ on a database file that holds [db]: connect(isolation_level=None); count = 0; tx_cycle() *)
+Definition init_on (db : tables) (batch : N) : res wstate :=
   tx_cycle {| w_count := 0; w_batch := batch; w_seen := [];
-              w_open := true; w_con := {| c_committed := []; c_pending := []; c_in_tx := false |} |}.
+              w_open := true; w_con := {| c_committed := db; c_pending := []; c_in_tx := false |} |}.
+Definition init (batch : N) : res wstate := init_on [] batch.
+
+(* one writer session ends (close) and a NEW SqliteWriter is opened on the same file: the database persists,
+   count and descriptors_seen start afresh *)
+Definition reopen (w : wstate) : res wstate :=
+  close w >>= fun w1 => init_on (c_committed (w_con w1)) (w_batch w1).
 
 (* --- the same methods as statement lists (GENERATED from the method bodies) and their interpreter --- *)
 
@@ -469,19 +480,25 @@ Definition calls2 (cd : code) (s : simple) (w : wstate) : res wstate :=
 Definition code_write_fn (cd : code) (w : wstate) (r : record) : res wstate :=
   exec_stmts (calls2 cd) (Some r) (code_write cd) w.
 Definition code_close_fn (cd : code) (w : wstate) : res wstate := exec_stmts (calls2 cd) None (code_close cd) w.
-Definition code_init (cd : code) (batch : N) : res wstate :=
+Definition code_init_on (cd : code) (db : tables) (batch : N) : res wstate :=
   if code_init_autocommit cd && code_init_count_zero cd && code_init_tx_cycle cd
   then code_tx cd {| w_count := 0; w_batch := batch; w_seen := [];
-                     w_open := true; w_con := {| c_committed := []; c_pending := []; c_in_tx := false |} |}
+                     w_open := true; w_con := {| c_committed := db; c_pending := []; c_in_tx := false |} |}
   else Err EUnsupported.
+Definition code_init (cd : code) (batch : N) : res wstate := code_init_on cd [] batch.
+Definition code_reopen (cd : code) (w : wstate) : res wstate :=
+  code_close_fn cd w >>= fun w1 => code_init_on cd (c_committed (w_con w1)) (w_batch w1).
 
 (* ------------------------------------------------------------------------------------------ *)
 (* histories *)
 
-Inductive event := EWrite (r : record) | EFlush.
+Inductive event :=
+| EWrite (r : record)
+| EFlush
+| EReopen.      (* close the writer, open a new SqliteWriter on the same file with the same batch size *)
 
 Definition step (w : wstate) (e : event) : res wstate :=
-  match e with EWrite r => write w r | EFlush => flush w end.
+  match e with EWrite r => write w r | EFlush => flush w | EReopen => reopen w end.
 
 Definition run_from (w0 : res wstate) (evs : list event) : res wstate :=
   fold_left (fun acc e => acc >>= fun w => step w e) evs w0.
@@ -494,7 +511,7 @@ Definition visible (w : wstate) : tables := c_committed (w_con w).
 Definition final_db (batch : N) (evs : list event) : res tables := finish batch evs >>= fun w => Ok (visible w).
 
 Definition writes (evs : list event) : list record :=
-  flat_map (fun e => match e with EWrite r => [r] | EFlush => [] end) evs.
+  flat_map (fun e => match e with EWrite r => [r] | EFlush | EReopen => [] end) evs.
 Definition descs_of (evs : list event) : list desc := map r_desc (writes evs).
 
 (* ---- the content of the database as a function of the history alone (no batches, no transactions) ---- *)
@@ -512,7 +529,7 @@ Definition seq_write (st : seq_state) (r : record) : res seq_state :=
   insert_record r (snd st1) >>= fun t3 => Ok (fst st1, t3).
 
 Definition seq_step (st : seq_state) (e : event) : res seq_state :=
-  match e with EWrite r => seq_write st r | EFlush => Ok st end.
+  match e with EWrite r => seq_write st r | EFlush => Ok st | EReopen => Ok ([], snd st) end.
 
 Definition seq_run (evs : list event) : res seq_state :=
   fold_left (fun acc e => acc >>= fun st => seq_step st e) evs (Ok ([], [])).
@@ -562,6 +579,8 @@ Definition case_distinct (evs : list event) : Prop :=
 Definition wf_history (evs : list event) : Prop := forall d, In d (descs_of evs) -> NoDup (field_names d).
 Definition storable (v : pval) : Prop := match v with PInt z => int64_ok z = true | _ => True end.
 Definition ints_in_range (evs : list event) : Prop := forall r, In r (writes evs) -> Forall storable (r_vals r).
+(* no type name begins with "sqlite_" *)
+Definition no_reserved_names (evs : list event) : Prop := forall n, In n (type_names evs) -> reserved_name n = false.
 
 (* the same hypotheses as computable tests (sound, see proofs) *)
 Definition case_injb (l : list string) : bool :=
@@ -576,7 +595,10 @@ Definition case_distinctb (evs : list event) : bool :=
   forallb (fun n => case_injb (flat_map field_names (descs_named n evs))) (dedup_by self (type_names evs)).
 Definition ints_in_rangeb (evs : list event) : bool := forallb (fun r => forallb storableb (r_vals r)) (writes evs).
 
-Definition hypsb (evs : list event) : bool := wf_historyb evs && case_distinctb evs && ints_in_rangeb evs.
+Definition no_reserved_namesb (evs : list event) : bool := forallb (fun n => negb (reserved_name n)) (type_names evs).
+
+Definition hypsb (evs : list event) : bool :=
+  wf_historyb evs && case_distinctb evs && ints_in_rangeb evs && no_reserved_namesb evs.
 
 (* ---- commit points as positions in the history ---- *)
 
@@ -585,6 +607,8 @@ Record scan := { sc_pos : nat; sc_cnt : N; sc_seen : list desc; sc_lc : nat }.
 Definition scan_step (batch : N) (s : scan) (e : event) : scan :=
   match e with
   | EFlush => {| sc_pos := S (sc_pos s); sc_cnt := sc_cnt s; sc_seen := sc_seen s; sc_lc := S (sc_pos s) |}
+  | EReopen => {| sc_pos := S (sc_pos s); sc_cnt := 0; sc_seen := []; sc_lc := S (sc_pos s) |}
+       (* close commits everything; the new writer counts from 0 and has seen no descriptor *)
   | EWrite r =>
       let new := negb (existsb (desc_eqb (r_desc r)) (sc_seen s)) in
       let lc1 := if new then sc_pos s else sc_lc s in      (* a new descriptor commits everything before this record *)
@@ -602,14 +626,21 @@ Definition last_commit (batch : N) (evs : list event) : nat := sc_lc (scan_all b
 
 Definition n_writes (evs : list event) : N := N.of_nat (List.length (writes evs)).
 
+(* the events of the current writer session: those after the last EReopen *)
+Definition session_step (acc : list event) (e : event) : list event :=
+  match e with EReopen => [] | _ => acc ++ [e] end.
+Definition session (evs : list event) : list event := fold_left session_step evs [].
+
 (* the same positions described one by one: [c] leading events are committed as a whole when ... *)
 Definition is_commit_point (batch : N) (evs : list event) (c : nat) : Prop :=
   c = 0                                                                           (* nothing written yet *)
-  \/ (exists c', c = S c' /\ nth_error evs c' = Some EFlush)                      (* an explicit flush *)
+  \/ (exists c', c = S c' /\ (nth_error evs c' = Some EFlush \/ nth_error evs c' = Some EReopen))
+                                                               (* an explicit flush; the end of a writer session *)
   \/ (exists c' r, c = S c' /\ nth_error evs c' = Some (EWrite r) /\
-                   (n_writes (firstn c evs) mod batch = 0)%N)                      (* every batch-th record *)
+                   (n_writes (session (firstn c evs)) mod batch = 0)%N)    (* every batch-th record of a session *)
   \/ (exists r, nth_error evs c = Some (EWrite r) /\
-                ~ In (r_desc r) (descs_of (firstn c evs))).     (* the next record brings a new descriptor *)
+                ~ In (r_desc r) (descs_of (session (firstn c evs)))).
+                                                 (* the next record brings a descriptor new to this session *)
 
 (* ------------------------------------------------------------------------------------------ *)
 (* SqliteReader.read_table: declared column type -> field type; clean-ups; field type conversion.
@@ -644,6 +675,10 @@ Definition read_cell (decl : string) (v : sval) : option pval :=
 Definition read_table (t : table) : list (list (option pval)) :=
   map (fun vals => map (fun cv => read_cell (snd (fst cv)) (snd cv)) (combine (t_cols t) vals)) (select_all t).
 
+(* SqliteReader.__iter__ when table_names lists every table (GENERATED fact: the query has no further filter) *)
+Definition read_db (ts : tables) : list (string * list (list (option pval))) :=
+  map (fun t => (t_name t, read_table t)) ts.
+
 (* what a record looks like after the round trip, per field of its own descriptor *)
 Definition expected_back (typename : string) (v : pval) : option pval :=
   match db_value v with
@@ -673,3 +708,7 @@ End WithConfig.
 
 Definition cols_eqb (a b : list (string * string)) : bool := list_eqb pair_eqb a b.
 Definition rows_eqb (a b : list (list sval)) : bool := list_eqb (list_eqb sval_eqb) a b.
+
+(* SqliteReader.table_names: the (whitespace- and case-normalised) query that lists EVERY table; the GENERATED
+   fact reader_table_query must be this text for [read_db] to be what SqliteReader.__iter__ does *)
+Definition all_tables_query : string := "select name from sqlite_master where type='table'".
